@@ -83,7 +83,19 @@ def rule_v1(chk: Check) -> None:
     chk.floor("V1", "dispatch/consultation nodes", len(disp), 3)
 
     parsers = [n for n in g.nodes if n.ast is not None and n.kind == "stmt" and any(method_call(c) and method_call(c)[1] == "from_line" for c in calls(n.ast))]
-    decodes = [n for n in g.nodes if n.ast is not None and n.kind == "stmt" and not n.stack and any(_strict_utf8_decode(c) for c in calls(n.ast))]
+    from .c07 import _is_buffer_line
+
+    def _line_decode(n):
+        # a strict UTF-8 decode of the buffered request line, in data_received itself or in a
+        # helper it was extracted to
+        for c in calls(n.ast):
+            if _strict_utf8_decode(c):
+                recv = method_call(c)[0]
+                if not n.stack or (isinstance(recv, ast.Name) and _is_buffer_line(recv.id, n.func.node)):
+                    return True
+        return False
+
+    decodes = [n for n in g.nodes if n.ast is not None and n.kind == "stmt" and _line_decode(n)]
     lentests = [n for n in g.nodes if n.kind == "test" and n.ast is not None and any(isinstance(x, ast.Name) and x.id == "MAX_REQUEST_SIZE" for x in walk(n.ast)) and "url_line" in norm(n.ast)]
     chk.require("V1", dr.key, "request parser call sites", len(parsers), 2, "a request line reaches dispatch without going through GeminiRequest/TitanRequest.from_line")
     chk.require("V1", dr.key, "strict UTF-8 decode of the request line", len(decodes), 1, "the request line is not decoded strictly as UTF-8 before use")
